@@ -239,7 +239,7 @@ def run(ctx):
     maxlen = 2 if ctx.quick else 3
     seqs = [list(s) for L in range(1, maxlen + 1) for s in itertools.permutations(offered, L)]
     pnames = [k for k, p in problems.items() if type(p).__name__ == "Problem"]
-    sample = sorted(rng.sample(pnames, 2 if ctx.quick else 10))
+    sample = sorted(rng.sample(pnames, 2 if ctx.quick else 5))
     n_run = 60 if ctx.quick else 400
     pcases, praw = [], []
     pstats = {"problems": sample, "sequences_per_problem": len(seqs), "requests": 0, "built": 0, "not_built": {}, "run_stage_by_stage": 0,
@@ -308,21 +308,23 @@ def run(ctx):
     phase["pipelines_python"] = round(time.time() - t0, 1); t0 = time.time()
     pbad = ctx.coq_failing(pcases, "pc_ok ENG", imports=IMPORTS, preamble=pre, shard=max(1, (len(pcases) + 1) // 2))
     phase["coq_pipelines"] = round(time.time() - t0, 1); t0 = time.time()
+    def culprit_of(rec, kinds):
+        """first stage whose output has features outside the kind the classes declare for it: (engine name, [features])"""
+        d = problems[rec["problem"]].kind
+        for j, (n, ck) in enumerate(zip(rec["names"], rec["cks"])):
+            if j + 1 >= len(kinds):
+                break
+            d = classes[n].resulting_problem_kind(d, I.CK[ck])
+            extra = sorted(set(kinds[j + 1][0]) - set(I.spec_of(d)[0]))
+            if extra:
+                return (n, [I.names[x] for x in extra])
+        return None
+
     pgroups = {}
     for i in pbad:
         rec = praw[i]
         parts = ctx.coq_show("pc_parts ENG c", imports=IMPORTS, preamble=pre + "Definition c := %s.\n" % pcases[i]) if len(pgroups) < 6 else ""
-        culprit = None
-        if "final" in rec:
-            # which stage produced a kind outside the declared one?  replay the declarations with the classes themselves
-            d = problems[rec["problem"]].kind
-            kinds = rec["actual"] + [rec["final"]]
-            for j, (n, ck) in enumerate(zip(rec["names"], rec["cks"])):
-                d = classes[n].resulting_problem_kind(d, I.CK[ck])
-                extra = sorted(set(kinds[j + 1][0]) - set(I.spec_of(d)[0]))
-                if extra:
-                    culprit = (n, [I.names[x] for x in extra])
-                    break
+        culprit = culprit_of(rec, rec["actual"] + [rec["final"]]) if "final" in rec else None
         if culprit:
             for f in culprit[1]:
                 pgroups.setdefault((culprit[0], f), []).append((rec, parts))
@@ -341,9 +343,20 @@ def run(ctx):
     for rec in praw:
         if "rejected" in rec:
             _, who, msg = rec["rejected"]
-            ctx.fail("oracle", "factory pipeline %s on %s: stage %s rejected the intermediate problem it received (%s)" % (
-                [I.CK[i].name for i in rec["cks"]], rec["problem"], who, msg), ["c09", "pipeline", "stage-rejected", "compiler:" + who],
-                {"request": {k: v for k, v in rec.items() if k != "pipe"}, "theorem_or_corr": "oracle:C09:pipeline-accepts"}, True)
+            cul = culprit_of(rec, rec["actual"])       # rec["actual"] ends with the kind of the problem that was rejected
+            if cul:
+                # consequence of an under-declared earlier stage: one failure per undeclared feature, tagged like the compiler-level finding
+                for f in cul[1]:
+                    ctx.fail("oracle", "factory pipeline %s on %s: stage %s rejected the problem it received because stage %s produced feature %s "
+                             "outside its declared kind" % ([I.CK[i].name for i in rec["cks"]], rec["problem"], who, cul[0], f),
+                             ["c09", "pipeline", "stage-rejected", "compiler:" + cul[0], "undeclared:" + f],
+                             {"request": {k: v for k, v in rec.items() if k != "pipe"}, "rejected_by": who, "culprit": cul,
+                              "theorem_or_corr": "oracle:C09:pipeline-accepts"}, True)
+            else:
+                ctx.fail("oracle", "factory pipeline %s on %s: stage %s rejected the intermediate problem it received (%s) although every earlier "
+                         "stage stayed within its declared kind" % ([I.CK[i].name for i in rec["cks"]], rec["problem"], who, msg),
+                         ["c09", "pipeline", "stage-rejected", "rejected-by:" + who],
+                         {"request": {k: v for k, v in rec.items() if k != "pipe"}, "theorem_or_corr": "oracle:C09:pipeline-accepts"}, True)
     if not ok_proofs:
         ctx.proof_broken()
 
